@@ -101,7 +101,7 @@ def c13(c):
 def bt_exprs(c, leaves):
     cfg = ("CONSTANTS MaxLeaves = %d  DUMP = TRUE\nSPECIFICATION Spec\nINVARIANTS FlipCorrect NoDoubleNegation Dump\n"
            "CHECK_DEADLOCK FALSE\n" % leaves)
-    r = c.tlc("BuildTag", cfg, "buildtag%d" % leaves, workers=1, timeout=3000)
+    r = c.tlc("BuildTag", cfg, "buildtag%d" % leaves, workers=1 if leaves <= 3 else 8, timeout=3000)
     path = os.path.join(c.scratch, "exprs%d.tsv" % leaves)
     n = 0
     with open(path, "w") as f:
@@ -120,10 +120,16 @@ def c16(c):
     tagcheck = c.build_go("./cmd/tagcheck", "tagcheck", tags="")
     tool = c.build_go("./cmd/gendiff", "gendiff", tags="")
     # (a) build constraints: every expression TLC enumerated, all spellings, real cff, truth tables
+    path, n = bt_exprs(c, 3 if c.quick else 4)
     if not c.quick:
-        c.tlc("BuildTag", "CONSTANTS MaxLeaves = 4  DUMP = FALSE\nSPECIFICATION Spec\nINVARIANTS FlipCorrect NoDoubleNegation\nCHECK_DEADLOCK FALSE\n",
-              "buildtag4", workers=16, timeout=3000)
-    path, n = bt_exprs(c, 3)
+        # every expression with <= 3 leaves and a seeded sample of the 428 k four-leaf ones
+        rng = random.Random(c.seed)
+        lines = open(path).read().splitlines()
+        nops = lambda l: l.split("\t")[0].count("&&") + l.split("\t")[0].count("||")
+        keep = [l for l in lines if nops(l) <= 2] + rng.sample([l for l in lines if nops(l) == 3], 12000)
+        path = os.path.join(c.scratch, "exprs-thorough.tsv")
+        open(path, "w").write("\n".join(keep) + "\n")
+        n = len(keep)
     if c.quick:
         # all expressions with <= 2 leaves and a seeded third of the 3-leaf ones
         rng = random.Random(c.seed)
@@ -212,7 +218,7 @@ def c17(c):
                         if ev["rc"] != 0:
                             break
                     files = G.src_files(root, pkg)
-                    pick = files if not c.quick else rng.sample(files, min(len(files), 10))
+                    pick = rng.sample(files, min(len(files), 10 if c.quick else 40))
                     for f in pick:
                         log.run(cff, root, pkg, mode, extra, files=[f], alt={f: "alone_out.go"})
                     # two files selected together, in reversed order on the command line
